@@ -21,6 +21,8 @@ fn write_tokio_ffi() {
 
 fn main() {
     println!("cargo:rerun-if-changed=build.rs");
+    // the verification guard (hook H4) is a known cfg
+    println!("cargo:rustc-check-cfg=cfg(dnp3_verif)");
 
     write_tracing_ffi();
     write_tokio_ffi();
